@@ -229,6 +229,136 @@ pub fn check_desc(family: &'static str, index: u64, r: &mut Rng, d: &DDesc) {
     cx.sample_n(4, || json!({"family": family, "index": index, "diagram": desc, "accepted_applications": acc}));
 }
 
+/// A walk of accepted rule applications on the SAME graph object: up to 14 steps, each a
+/// random (rule, arguments) tuple that the matcher accepts in the *current* state, applied
+/// through the unchecked or the checked form; after every step the map must still be the
+/// original one. Rejected checked calls are interleaved and must leave the object untouched.
+/// The state a rule leaves behind (recycled ids, holes, parallel-edge resolution, phases set by
+/// earlier steps) is the next rule's input - single applications to freshly built diagrams
+/// never see that.
+fn rule_walk<G: GraphLike + PartialEq>(family: &'static str, index: u64, backend: &str, r: &mut Rng, mut g: G, before: &Tens, desc: &serde_json::Value) -> u64 {
+    let cx = ctx();
+    let mut applied = 0u64;
+    let mut trail: Vec<String> = vec![];
+    for _step in 0..14 {
+        let mut args: Vec<V> = g.vertices().collect();
+        args.sort();
+        if args.is_empty() {
+            break;
+        }
+        // find an accepted tuple
+        let mut found = None;
+        for _ in 0..80 {
+            let (rule, ar, has_checked) = *r.pick(&RULES);
+            let a = *r.pick(&args);
+            let b = if ar == Arity::One {
+                a
+            } else if r.chance(0.7) {
+                // neighbours are the likely partners
+                let nb: Vec<V> = g.neighbors(a).collect();
+                if nb.is_empty() {
+                    *r.pick(&args)
+                } else {
+                    *r.pick(&nb)
+                }
+            } else {
+                *r.pick(&args)
+            };
+            match guarded(|| check_rule(rule, &g, a, b)) {
+                Ok(true) => {
+                    found = Some((rule, a, b, has_checked));
+                    break;
+                }
+                Ok(false) => {
+                    if has_checked && r.chance(0.1) {
+                        let snapshot = g.clone();
+                        match guarded(|| apply_checked(rule, &mut g, a, b)) {
+                            Ok(false) if g == snapshot => {}
+                            Ok(false) => {
+                                cx.violation(&format!("{rule}|rejected-but-modified|in-walk"), family, index, json!({"rule": rule, "args": [a, b], "backend": backend, "diagram": desc, "steps_before": trail, "graph": graph_json(&snapshot), "result": graph_json(&g)}));
+                                return applied;
+                            }
+                            Ok(true) => {
+                                cx.violation(&format!("{rule}|checked-form-disagrees|in-walk"), family, index, json!({"rule": rule, "args": [a, b], "backend": backend, "diagram": desc, "steps_before": trail, "graph": graph_json(&snapshot)}));
+                                return applied;
+                            }
+                            Err(e) => {
+                                cx.violation(&format!("{rule}|panic-on-reject|in-walk"), family, index, json!({"rule": rule, "args": [a, b], "backend": backend, "diagram": desc, "steps_before": trail, "panic": e.text()}));
+                                return applied;
+                            }
+                        }
+                    }
+                }
+                Err(e) => {
+                    cx.violation(&format!("check_{rule}|panic|in-walk"), family, index, json!({"rule": rule, "args": [a, b], "backend": backend, "diagram": desc, "steps_before": trail, "panic": e.text()}));
+                    return applied;
+                }
+            }
+        }
+        let Some((rule, a, b, has_checked)) = found else { break };
+        let prev = g.clone();
+        let use_checked = has_checked && r.chance(0.4);
+        let res = guarded(|| {
+            if use_checked {
+                apply_checked(rule, &mut g, a, b)
+            } else {
+                apply_unchecked(rule, &mut g, a, b);
+                true
+            }
+        });
+        trail.push(format!("{rule}({a},{b}){}", if use_checked { " [checked form]" } else { "" }));
+        let detail = |what: &str, extra: serde_json::Value| {
+            json!({"what": what, "rule": rule, "args": [a, b], "backend": backend, "diagram": desc, "steps": trail, "graph_before_step": graph_json(&prev), "extra": extra})
+        };
+        match res {
+            Err(e) => {
+                cx.violation(&format!("{rule}|panic-after-accept|in-walk"), family, index, detail("rule panicked after matcher accepted", json!(e.text())));
+                return applied;
+            }
+            Ok(false) => {
+                cx.violation(&format!("{rule}|checked-form-disagrees|in-walk"), family, index, detail("matcher accepted but the checked form returned false", json!(null)));
+                return applied;
+            }
+            Ok(true) => {}
+        }
+        applied += 1;
+        cx.count(&format!("walk-step:{rule}"), 1);
+        match eval_graph(&g) {
+            Ok(after) => {
+                if after.len() != before.len() || !after.same(before, FLOAT_TOL) {
+                    cx.violation(&format!("{rule}|map-changed|in-walk"), family, index, detail("accepted application changed the linear map", json!({"before": before.brief(), "after": after.brief(), "result": graph_json(&g)})));
+                    return applied;
+                }
+            }
+            Err(EvalError::IllFormed(m)) => {
+                cx.violation(&format!("{rule}|ill-formed-result|in-walk"), family, index, detail("accepted application produced an ill-formed diagram", json!({"why": m, "result": graph_json(&g)})));
+                return applied;
+            }
+            Err(EvalError::TooWide(_)) => {
+                cx.skipped();
+                return applied;
+            }
+        }
+    }
+    cx.maximum("max_walk_length", applied);
+    applied
+}
+
+pub fn check_walks(family: &'static str, index: u64, r: &mut Rng, d: &DDesc) {
+    let cx = ctx();
+    let scr = if r.chance(0.4) { Some(r.next_u64()) } else { None };
+    let (gv, _) = d.build::<quizx::vec_graph::Graph>(scr);
+    let Ok(before) = eval_graph(&gv) else {
+        cx.skipped();
+        return;
+    };
+    let desc = d.to_json();
+    let mut n = rule_walk(family, index, "vec", r, gv, &before, &desc);
+    let (gh, _) = d.build::<quizx::hash_graph::Graph>(scr);
+    n += rule_walk(family, index, "hash", r, gh, &before, &desc);
+    cx.case(family, if n > 0 { Some(d.hash()) } else { None });
+}
+
 pub fn run() {
     let c = ctx();
     let t = c.tier;
@@ -275,6 +405,20 @@ pub fn run() {
     par_cases("gadget-pairs", n_rand, move |r, i| {
         let d = gen_gadget_pairs(r, PhasePool::CliffordHeavy, 0.0);
         check_desc("gadget-pairs", i, r, &d);
+    });
+    par_cases("rule-walks", n_rand * 2, move |r, i| {
+        let d = match r.below(4) {
+            0 => gen_random(r, &DiagParams { max_spiders: ms + 2, max_bnd: 3, pool: PhasePool::CliffordHeavy, graph_like: false, bare_wires: true, var_prob: 0.0 }),
+            1 => gen_random(r, &DiagParams { max_spiders: ms + 3, max_bnd: 3, pool: PhasePool::CliffordHeavy, graph_like: true, bare_wires: false, var_prob: 0.0 }),
+            2 => gen_gadget_rich(r, 4, PhasePool::CliffordHeavy, 0.0),
+            _ => gen_gadget_pairs(r, PhasePool::Exact, 0.0),
+        };
+        check_walks("rule-walks", i, r, &d);
+    });
+    par_cases("rule-walks-long-sparse", t.pick(150usize, 5_000usize), move |r, i| {
+        let gl = r.chance(0.5);
+        let d = gen_long_sparse(r, 40, 90, PhasePool::CliffordHeavy, gl, 0.0);
+        check_walks("rule-walks-long-sparse", i, r, &d);
     });
     // 66-200 spiders: ids above 64/128, argument pairs that are far apart
     let n_long = t.pick(48usize, 2500usize);
